@@ -555,6 +555,23 @@ class _BBRepr(Repr):
             return "float('%s')" % ret
         return ret
 
+    def repr_complex(self, x, level):
+        if x != x or x - x != 0:  # (a non-finite part: (inf+1j) is not a Python expression)
+            return 'complex(%s, %s)' % (self.repr_float(x.real, level), self.repr_float(x.imag, level))
+        return repr(x)
+
+    def repr_dict(self, x, level):
+        # (reprlib sorts the keys: the order of a dict argument is part of its value)
+        if not x:
+            return '{}'
+        if level <= 0:
+            return '{' + getattr(self, 'fillvalue', '...') + '}'
+        pieces = ['%s: %s' % (self.repr1(k, level - 1), self.repr1(v, level - 1))
+                  for k, v in list(x.items())[:self.maxdict]]
+        if len(x) > self.maxdict:
+            pieces.append(getattr(self, 'fillvalue', '...'))
+        return '{' + ', '.join(pieces) + '}'
+
     def repr_slice(self, x, level):
         # (reprlib leaves slices to repr(): a builtin inside would not get its name)
         return 'slice(%s)' % ', '.join([self.repr1(v, level - 1)
